@@ -23,6 +23,8 @@
 using namespace vh;
 namespace ac = amgcl::coarsening;
 typedef amgcl::backend::builtin<Q> Backend;
+typedef amgcl::backend::builtin<double> BackendD;
+typedef amgcl::backend::crs<double, ptrdiff_t, ptrdiff_t> CrsD;
 
 // ------------------------------------------------------------------ helpers
 static float as_float(const Q &q) {
@@ -281,6 +283,37 @@ static Result execute(const Toks &t) {
             for (size_t i = 0; tr && i < P.nrows; ++i) for (size_t j = 0; j < P.ncols; ++j) if (!(DP[i][j] == DR[j][i])) tr = false;
             if (!tr) r.fail("R != transpose(P)");
             if (!crs_nodup(P)) r.fail("duplicate column in a row of P");
+            // supporting run of the shipped instantiation (double) on the same integer-valued data: the strength tests are
+            // exact in binary64 here, so P must have the same pattern, finite entries (the `dia == 0` guard is invisible
+            // at Q because 1/0 := 0 there) and values equal up to rounding
+            {
+                std::vector<double> vd(A.val.size()); bool small = true;
+                for (size_t k = 0; k < vd.size(); ++k) { vd[k] = A.val[k].v.get_d(); if (!(Q(vd[k]) == A.val[k]) || std::fabs(vd[k]) > 1e6) small = false; }
+                if (small && est) { Dense D0 = dense(A); for (long i = 0; i < A.n; ++i) if (D0[i][i] == 0) small = false; }   // 1/0 in the Gershgorin scaling: inf in IEEE, 0 at Q
+                if (small) {
+                    CrsD Ad((size_t)A.n, (size_t)A.m, A.ptr, A.col, vd);
+                    ac::smoothed_aggregation<BackendD>::params pd; pd.aggr.eps_strong = eps; pd.aggr.block_size = (unsigned)b;
+                    pd.relax = relax; pd.estimate_spectral_radius = est != 0; pd.power_iters = 0;
+                    ac::smoothed_aggregation<BackendD> Cd(pd);
+                    try {
+                        for (long k = 0; k < lvl; ++k) { try { Cd.transfer_operators(Ad); } catch (const amgcl::error::empty_level &) {} catch (const std::runtime_error &) {} }
+                        auto PRd = Cd.transfer_operators(Ad); auto &Pd = *std::get<0>(PRd);
+                        bool same = Pd.nrows == P.nrows && Pd.ncols == P.ncols, fin = true, close = true;
+                        for (size_t i = 0; same && i < P.nrows; ++i) {
+                            if (Pd.ptr[i+1] - Pd.ptr[i] != P.ptr[i+1] - P.ptr[i]) { same = false; break; }
+                            for (auto j = P.ptr[i], jd = Pd.ptr[i]; j < P.ptr[i+1]; ++j, ++jd) {
+                                if (Pd.col[jd] != P.col[j]) same = false;
+                                if (!std::isfinite(Pd.val[jd])) fin = false;
+                                else if (std::fabs(Pd.val[jd] - P.val[j].v.get_d()) > 1e-9 * (1 + std::fabs(P.val[j].v.get_d()))) close = false;
+                            }
+                        }
+                        if (!fin) r.fail("double instantiation: non-finite entry in P (zero filtered diagonal not guarded?)");
+                        else if (!same) r.fail("double instantiation: pattern of P differs from the exact one");
+                        else if (!close) r.fail("double instantiation: P differs from the exact one by more than rounding");
+                        r.tag("double_checked");
+                    } catch (const amgcl::error::empty_level &) { r.fail("double instantiation: empty_level but not at Q"); }
+                }
+            }
             if (crs_nodup(*Ac) && has_all_diag(A)) {
                 ac::pointwise_aggregates::params ap; ap.eps_strong = eps_l; ap.block_size = (unsigned)b;
                 ac::pointwise_aggregates ag(*Ac, ap, 0);
